@@ -6,11 +6,13 @@
 package poolsim
 
 import (
+	"bytes"
 	"errors"
 	"fmt"
 	"io"
 	"math/big"
 	"os"
+	"os/exec"
 	"path/filepath"
 	"runtime"
 	"sort"
@@ -35,10 +37,69 @@ import (
 const P = "C19"
 
 func TestMain(m *testing.M) {
+	if raceBuild && os.Getenv("POOLSIM_RACE_CHILD") == "" {
+		os.Exit(raceParent())
+	}
 	core.VerifDisableSenderCacher()
 	code := m.Run()
 	simkit.Global.Flush()
 	os.Exit(code)
+}
+
+// raceParent (race builds): the race runtime reports on stderr and, with GORACE=halt_on_error=1, ends the process
+// on the spot, so a report can never become a rapid failure.  The test binary therefore re-executes itself and the
+// parent turns a report of the child into the violation line of class "race".  The interleaving is a function of
+// the rapid seed, so the same -rapid.seed/-rapid.checks under the race build reproduce it.
+func raceParent() int {
+	cmd := exec.Command(os.Args[0], os.Args[1:]...)
+	cmd.Env = append(os.Environ(), "POOLSIM_RACE_CHILD=1")
+	var errBuf bytes.Buffer
+	cmd.Stdout = os.Stdout
+	cmd.Stderr = io.MultiWriter(os.Stderr, &errBuf)
+	err := cmd.Run()
+	out := errBuf.String()
+	if i := strings.Index(out, "WARNING: DATA RACE"); i >= 0 {
+		fmt.Printf("VCLASS property=%s class=race digest= witness={%s}\nrace detector report (reproduce with the race build and the same -rapid.seed / -rapid.checks: %v)\n",
+			P, raceWitness(out[i:]), os.Args[1:])
+		return 1
+	}
+	if err != nil {
+		if ee, ok := err.(*exec.ExitError); ok {
+			return ee.ExitCode()
+		}
+		fmt.Fprintln(os.Stderr, "poolsim: cannot re-execute:", err)
+		return 2
+	}
+	return 0
+}
+
+// raceWitness names the two conflicting accesses by their innermost non-runtime functions.
+func raceWitness(report string) string {
+	var fns []string
+	lines := strings.Split(report, "\n")
+	for i, l := range lines {
+		t := strings.TrimSpace(l)
+		if !(strings.HasPrefix(t, "Read at") || strings.HasPrefix(t, "Write at") || strings.HasPrefix(t, "Previous read at") || strings.HasPrefix(t, "Previous write at")) {
+			continue
+		}
+		for j := i + 1; j < len(lines) && strings.HasPrefix(lines[j], "  "); j += 2 {
+			f := strings.TrimSpace(lines[j])
+			if strings.HasPrefix(f, "runtime.") || strings.HasPrefix(f, "sync.") || strings.HasPrefix(f, "internal/") {
+				continue
+			}
+			f = strings.TrimSuffix(f, "()")
+			if k := strings.LastIndex(f, "/"); k >= 0 {
+				f = f[k+1:]
+			}
+			fns = append(fns, f)
+			break
+		}
+		if len(fns) == 2 {
+			break
+		}
+	}
+	sort.Strings(fns)
+	return "race=" + strings.Join(fns, "|")
 }
 
 // ---------------------------------------------------------------- tape
@@ -249,7 +310,9 @@ func (h *harness) onAcquire(g *G, l any, write bool) {
 	// g holds pool.mu exclusively and is the only goroutine running: the pool's lists can be read.
 	r := c.cur
 	r.taken = true
-	r.full = h.pool.VerifSlots()+1 > int(h.pcfg.GlobalSlots+h.pcfg.GlobalQueue)
+	// "full": some transaction of this call may find the pool without a free slot, i.e. the pool may discard its
+	// cheapest remote transactions (possibly the very occupant of the slot) before it looks at the slot
+	r.full = h.pool.VerifSlots()+len(r.keys) > int(h.pcfg.GlobalSlots+h.pcfg.GlobalQueue)
 	for _, k := range r.keys {
 		var sn slotSnap
 		if tx, pending := h.pool.VerifSlot(accounts[k.acct].in, k.nonce); tx != nil {
@@ -316,7 +379,11 @@ func (h *harness) add(c *client, how string, keys []txKey) {
 		if errs[i] != nil {
 			continue
 		}
-		if old.have && old.hash != r.txs[i].Hash() {
+		if old.have && old.hash != r.txs[i].Hash() && r.full && len(keys) > 1 {
+			// a batch that may have evicted the occupant while making room for an EARLIER transaction of the batch:
+			// "the occupant was still there" cannot be established from outside; not judged
+			h.inc("probe.replacement_check_skipped_full_batch")
+		} else if old.have && old.hash != r.txs[i].Hash() {
 			need := threshold(old.price, h.pcfg.PriceBump)
 			if r.txs[i].GasPrice().Cmp(need) < 0 || r.txs[i].GasPrice().Cmp(old.price) <= 0 {
 				where := "queued"
@@ -803,6 +870,9 @@ func runTape(t *testing.T, cfg cfgT, rounds []roundT, tape []byte) (res *harness
 		}
 		chainCfg := &params.ChainConfig{ChainID: chainID, Location: locZone}
 		db := rawdb.NewMemoryDatabase(logger)
+		seedUtxos(db)
+		h.chain.db = db
+		h.chain.finishGenesis()
 		h.tr.Event("cfg %+v", cfg)
 
 		abort := func() {
@@ -1008,6 +1078,11 @@ func runProperty(rt *rapid.T, t *testing.T, single bool) {
 		}
 	}
 	dig := h.tr.Digest()
+	if os.Getenv("POOLSIM_DUMP") != "" {
+		for _, l := range h.tr.Log {
+			fmt.Println("DUMP", dig, l)
+		}
+	}
 	G.Seen("trace", dig)
 	// non-trivial: >= 4 executed client ops of >= 3 kinds and at least one forced preemption (a goroutine that
 	// could have continued lost the scheduling decision to another one)
